@@ -518,6 +518,9 @@ class Interp:
     def binop(self, op, a, b, node=None):
         ln = getattr(node, 'lineno', None)
         from .npmodel import NpArr
+        from . import symcoll as _sc
+        if isinstance(a, _sc.SymSubSet) and isinstance(b, _sc.SymSubSet) and isinstance(op, (ast.BitOr, ast.Sub)):
+            return a.sym_union(self, [b], node) if isinstance(op, ast.BitOr) else a.sym_difference(self, [b], node)
         if isinstance(a, NpArr) or isinstance(b, NpArr):
             return NpArr.binop(self, op, a, b, node)
         if isinstance(op, ast.Add):
@@ -907,6 +910,13 @@ class Interp:
                 return hit[0]        # functools.cache hands out the SAME object again
             v = self._call_body(f, args, kwargs, node)
             self._cache_memo[memo_key] = (v, args, kwargs)      # (arguments kept alive: keys use identities)
+            from . import builtins_ as B
+            from . import symcoll as _sc
+            from .npmodel import NpArr as _NpArr
+            if isinstance(v, (list, dict, B.SetV, _sc.SymSubSet, _NpArr)):
+                # the cache hands this very object to every later caller with EQUAL arguments (functools.cache keys by
+                # value): mutating it in place changes the answers other objects get — recorded as a write to shared state
+                B.declare_owner(self, v, CacheOwner(f.qual), 'result')
             return v
         return self._call_body(f, args, kwargs, node)
 
@@ -1073,6 +1083,12 @@ class Interp:
                 cur.data = r.data
                 return cur
             return r
+        from . import symcoll as _sc
+        if isinstance(cur, _sc.SymSubSet) and isinstance(op, (ast.BitOr, ast.Sub)) and isinstance(v, _sc.SymSubSet):
+            r = cur.sym_union(self, [v], node) if isinstance(op, ast.BitOr) else cur.sym_difference(self, [v], node)
+            B.owner_check(self, cur, getattr(node, 'lineno', None))
+            cur.mem = r.mem              # in place: every holder of this set object sees it
+            return cur
         if isinstance(cur, B.SetV) and isinstance(op, (ast.BitOr, ast.BitAnd, ast.Sub)):
             r = self.binop(op, cur, v, node)
             if isinstance(r, B.SetV):
@@ -1194,6 +1210,18 @@ class Interp:
 
     def s_With(self, st, env):
         raise Unsupported("with statement")
+
+
+class CacheOwner:
+    """pseudo-object standing for the functools.cache table of a function (never fresh: writes to it are frame writes)"""
+    fresh = False
+
+    def __init__(self, qual):
+        self.qual = qual
+        self.tag = f'functools.cache of {qual}'
+
+    def __repr__(self):
+        return f"<cache of {self.qual}>"
 
 
 class ConfigV:
